@@ -1,6 +1,6 @@
 PROP = dict(
     id='C15', level='exploration',
-    pyvc=[],
+    pyvc=['contracts.c15'],
     finite=[],
     bounded='bounded.c15',
     bounded_budget=dict(quick=45, thorough=420),
